@@ -10,6 +10,7 @@ network vs page links through resolution, fast vs slow, pagination vs
 unpaginated, hierarchy, top-k.  Ground truth is parsed from the raw bytes by
 the independent parser (sim/fsck.py), per direction: inbound lists may
 legitimately lag behind outbound ones."""
+import os
 import hashlib
 import random
 from collections import Counter
@@ -30,6 +31,7 @@ class RawModel(Model):
         self.default_src = None
         self.default = None
         self.rules, self.rules_src, self.flags = {}, {}, set()
+        self.fs = fs
         self.nodes = fs.lrus()
         self.pages = fs.pages()
         self.pref = fs.prefixes()
@@ -62,6 +64,18 @@ def shim_ctx(case, prop, res, h, t, disk, model, seed):
     ctx.log_mark = len(disk.log)
     ctx.rules = {}
     return ctx
+
+
+def _benign_leftovers(errors):
+    """True when everything the raw parser reports about a recovered store is an unreferenced
+    leftover (a node or stub the interrupted request appended but never linked): a store the
+    library can go on writing to.  A head whose tail never arrived, a partial block and the like
+    are not: appending behind them glues foreign blocks to a stem."""
+    for e in errors:
+        if "is referenced by nothing" in e or "is on no list" in e or e == "odd number of stubs":
+            continue
+        return False
+    return True
 
 
 def run_recovered(case, prop, sweep, direction="out"):
@@ -158,6 +172,9 @@ def run_recovered(case, prop, sweep, direction="out"):
                     return raw
 
                 raw = sweep_now(label)
+                if retry and not _benign_leftovers(raw.fs.errors):
+                    res.stats["recovered_states_not_continued"] += 1
+                    retry = []
                 if retry:
                     # the caller retries: the interrupted request and the following ones are submitted
                     # again on the recovered index; the consistency clauses must still hold afterwards
@@ -207,10 +224,10 @@ def add_recovered(case, g, rng):
     """Turn a generated sequential case into a recovered-state case."""
     case["ops"] = [o for o in case["ops"] if o["op"] not in ("reopen",)][:16]
     if rng.random() < 0.5:
-        # "retry" (re-submitting the interrupted request on the recovered index and sweeping again) is
-        # implemented but switched off: no listed property quantifies over writing after a crash, and on
-        # the unchanged tree such continuations do produce inconsistent answers (DESIGN.md section 10)
-        case["recovered"] = {"kind": "crash", "cuts": rng.choice([2, 4, 6]), "retry": 0}
+        # "retry": the caller re-submits the interrupted request (and up to two following ones) on the
+        # recovered index and the sweep runs again; only on stores whose leftovers are unreferenced
+        # blocks (see _benign_leftovers).  VERIF_RETRY=0 switches it off.
+        case["recovered"] = {"kind": "crash", "cuts": rng.choice([2, 4, 6]), "retry": 0 if os.environ.get("VERIF_RETRY") == "0" else rng.choice([0, 1, 2, 3])}
     else:
         saved = g.weights
         g.weights = {"batch": 1}
